@@ -396,6 +396,20 @@ def load_target(c: Contract):
     return mod, f
 
 
+def _snapshot(a):
+    """Pre-state for `old`: a deep copy where the objects allow it, else per-argument."""
+    try:
+        return copy.deepcopy(a)
+    except Exception:
+        out = {}
+        for k, v in a.__dict__.items():
+            try:
+                out[k] = copy.deepcopy(v)
+            except Exception:
+                out[k] = v
+        return SimpleNamespace(**out)
+
+
 def _args_namespace(d):
     return d if isinstance(d, SimpleNamespace) else SimpleNamespace(**d)
 
@@ -423,10 +437,17 @@ def verify(c: Contract, variant=None, deadline_s=600):
     try:
         mod, f = (None, None) if is_lemma else load_target(c)
         c.mod = mod
-    except Exception as e:
+    except (Exception, Unsupported) as e:
         o = ob("target", "guard")
         _merge(o, "undecided", "cannot load target: %s: %s" % (type(e).__name__, str(e)[:200]))
         return list(obs.values()), info
+
+    from . import loopcut as _lc
+
+    _lc.ACTIVE.clear()
+    for qn, loops in (c.cuts or {}).items():
+        for k, spec in loops.items():
+            _lc.ACTIVE[(qn, k)] = spec
 
     def thunk():
         from . import explore as _e
@@ -435,10 +456,10 @@ def verify(c: Contract, variant=None, deadline_s=600):
         S = SymFactory(cx)
         a = _args_namespace(c.args(S, variant))
         cx.assume(c.requires(a))
-        old = copy.deepcopy(a)
+        old = _snapshot(a)
         try:
             r = c.call(f, a)
-        except (PathInfeasible, Unsupported, Budget, _e.SideObligationFailed):
+        except (PathInfeasible, Unsupported, Budget, _e.SideObligationFailed, _lc.PathEnd, _lc.LoopObligationFailed):
             raise
         except RecursionError:
             raise
@@ -452,6 +473,16 @@ def verify(c: Contract, variant=None, deadline_s=600):
         return _CallOutcome(a, old, "ret", r)
 
     deadline = t_start + deadline_s
+    if hasattr(c, "setup"):
+        c.setup()
+    try:
+        return _verify_rest(c, variant, thunk, stats, obs, ob, info, deadline, t_start)
+    finally:
+        if hasattr(c, "teardown"):
+            c.teardown()
+
+
+def _verify_rest(c, variant, thunk, stats, obs, ob, info, deadline, t_start):
     try:
         paths = explore(thunk, stats=stats, timeout_ms=c.timeout_ms, max_paths=c.max_paths,
                         concretize_limit=c.concretize_limit, deadline=deadline)
@@ -473,6 +504,18 @@ def verify(c: Contract, variant=None, deadline_s=600):
     sup.paths = len(paths)
     if sup.status != "proved":
         return list(obs.values()), info
+
+    # loop invariants (cut loops) ---------------------------------------------------------
+    for p in paths:
+        for n in p.loop_obligations:
+            o = ob(n, "property")
+            o.paths += 1
+        if p.kind == "loopfail":
+            o = ob(p.value.name, "property")
+            if o.status != "refuted":
+                _merge(o, "refuted", p.value.what)
+                r, model, backend, dt = solve(p.constraints, c.timeout_ms, stats)
+                o.model = {n: model_value(model, t) for n, t in p.symbols.items()} if model is not None else None
 
     outcomes = [p for p in paths if p.kind == "ret"]
     normal = [p for p in outcomes if p.value.kind == "ret"]
@@ -638,7 +681,7 @@ def _replay_inner(c, variant, o, S, f):
         pre = c.requires(a)
         if not pre:
             return {"reproduced": False, "why": "model violates the precondition natively"}
-        old = copy.deepcopy(a)
+        old = _snapshot(a)
         shown = {k: _safe_repr(v) for k, v in old.__dict__.items()}
         try:
             r = c.call(f, a)
